@@ -56,6 +56,18 @@ Step(ev) ==
      /\ LET Y == C!Obj(ev.yshape, ev.ycell)
         IN /\ C!CanSetItem(P, ev.i, Y)
            /\ Set(C!SetItem(P, ev.i, Y), C!SetItem(D, ev.i, Y))
+  \* obj[key] = value with an index list / integer array / boolean mask / slice with a step / negative index:
+  \* the recorder logs the rows the key selects
+  \/ /\ ev.op = "setrows" /\ l > 0
+     /\ LET Y == C!Obj(ev.yshape, ev.ycell)
+        IN /\ C!CanSetRows(P, ev.rows, Y)
+           /\ Set(C!SetRows(P, ev.rows, Y), C!SetRows(D, ev.rows, Y))
+  \/ /\ ev.op = "settuple" /\ l > 0
+     /\ LET Y == C!Obj(ev.yshape, ev.ycell)
+        IN /\ C!CanSetTuple(P, ev.ix, Y)
+           /\ Set(C!SetTuple(P, ev.ix, Y), C!SetTuple(D, ev.ix, Y))
+  \/ /\ ev.op = "swap" /\ l > 0 /\ shape # <<>> /\ ev.i \in 0..(Head(shape) - 1) /\ ev.j \in 0..(Head(shape) - 1)
+     /\ Set(C!Swap(P, ev.i, ev.j), C!Swap(D, ev.i, ev.j))
   \/ /\ ev.op = "stack" /\ l > 0
      /\ LET Os == ObjsOf(ev.others)
         IN /\ C!CanStack(<<P>> \o Os)
